@@ -148,7 +148,7 @@ def _change_pivot(
         rdr = r + old_dr
         rdrpr = 1 / (r + new_dr)
 
-        jacobian: np.ndarray = np.zeros_like(old_error)  # (tracks, i, j)
+        jacobian: np.ndarray = np.zeros_like(old_error, dtype=np.float64)  # (tracks, i, j)
         if jacobian.ndim == 3:
             jacobian = jacobian.transpose(1, 2, 0)  # (i, j, tracks)
 
